@@ -658,6 +658,21 @@ func Step() int {
 }
 
 // LockWaiters lists the threads currently blocked on a mutex.
+// BlockedThreads lists every thread that is blocked right now (any kind of
+// operation); meant to be called at quiescence.
+func BlockedThreads() []Blocked {
+	var out []Blocked
+	if R == nil {
+		return nil
+	}
+	for _, t := range R.threads {
+		if !t.done && t.op != nil && !t.op.isEnabled() {
+			out = append(out, Blocked{t.Name, t.Worker, t.op.Kind, t.op.Label})
+		}
+	}
+	return out
+}
+
 func LockWaiters() []Blocked {
 	var out []Blocked
 	if R == nil {
